@@ -342,6 +342,12 @@ class TermBuilder:
             t = self._name_term(name, at, defs)
         finally:
             self._busy.discard(key)
+        if isinstance(t, PW):
+            # pieces whose guard is decided (`None is None` after a default was written in): a false piece goes, a true piece is the value
+            live = [(g_, v_) for g_, v_ in t.pieces if tm.truth(g_) is not False]
+            sure = [v_ for g_, v_ in live if tm.truth(g_) is True]
+            if len(sure) == 1 and len(live) == 1:
+                t = sure[0]
         # a value computed while a recurrence is being explored may contain a placeholder for the carried variable: it is an
         # intermediate of that exploration, not the value of the name at this point
         exploring = any(isinstance(k[1], str) and "#" in k[1] for k in self._busy)
@@ -939,6 +945,10 @@ class TermBuilder:
             o = {ast.Lt: "<", ast.LtE: "<=", ast.Gt: ">", ast.GtE: ">=", ast.Eq: "==", ast.NotEq: "!="}.get(type(op))
             if o is None:
                 name = {ast.Is: "is", ast.IsNot: "isnot", ast.In: "in", ast.NotIn: "notin"}[type(op)]
+                if name in ("is", "isnot") and isinstance(left, Lit) and isinstance(rhs, Lit) and left.value is None and rhs.value is None:
+                    parts.append(tm.TRUE if name == "is" else tm.FALSE)          # None is None: decided
+                    left = rhs
+                    continue
                 if name == "isnot":
                     parts.append(tm.negate(App("is", (left, rhs))))
                 elif name == "notin":
@@ -1018,6 +1028,11 @@ class TermBuilder:
 
     def _comp(self, e, at, kind):
         gens = e.generators
+        if kind == "list" and len(gens) == 2 and not gens[0].ifs and not gens[1].ifs and isinstance(gens[0].target, ast.Name) \
+                and isinstance(gens[1].target, ast.Name) and isinstance(gens[1].iter, ast.Name) and gens[1].iter.id == gens[0].target.id \
+                and isinstance(e.elt, ast.Name) and e.elt.id == gens[1].target.id and gens[0].target.id != gens[1].target.id:
+            # [x for sub in L for x in sub] flattens one level: list(itertools.chain(*L))
+            return App("builtins.list", (App("itertools.chain", (App("*", (self.term(gens[0].iter, at),)),)),))
         scope: Dict[str, T] = {}
         self._bound.append(scope)
         self._comp_depth += 1
